@@ -12,7 +12,7 @@ COMPONENTS = {
              'tornado + asyncio scheduling'],
     'stub': ['file object -> FakeFile (append-only text, optional short reads, seek(0,2))',
              'glob -> FakeFS.glob (live set in scenario-chosen listing order)', 'selector/clock -> SimLoop',
-             'open() / the real filesystem are not exercised'],
+             'open() -> fake_open for sources given a file name (bytes underneath; text-mode reads decode each read to the end, as TextIOWrapper.read() does); the real filesystem is not exercised'],
 }
 ASSUMPTIONS = {'C17': ['a write becomes visible atomically per scripted chunk; chunks may cut records and delimiters anywhere',
                        'the source is bound to the simulated loop explicitly (asynchronous=True, loop=...)']}
